@@ -222,7 +222,63 @@ def write_cases(path, cases):
             f.write("\n")
 
 
-def run_impl(cases_path, n, timeout_per_batch=600):
+def _split_cases(cases_path, n, parts):
+    """split a case file into `parts` contiguous chunk files; returns [(path, count)]"""
+    if parts <= 1 or n < 200:
+        return [(cases_path, n)]
+    per = (n + parts - 1) // parts
+    chunks = []
+    with open(cases_path, "rb") as f:
+        k = 0
+        out = None
+        cnt = 0
+        for line in f:
+            if out is None:
+                path = "%s.part%02d" % (cases_path, k)
+                out = open(path, "wb")
+            out.write(line)
+            cnt += 1
+            if cnt == per:
+                out.close()
+                chunks.append((path, cnt))
+                out, cnt, k = None, 0, k + 1
+        if out is not None:
+            out.close()
+            chunks.append((path, cnt))
+    return chunks
+
+
+def _parallel(fn, cases_path, n):
+    """run `fn(path, count)` on chunks of the case file concurrently (one OS process each) and concatenate, in order"""
+    import concurrent.futures
+    jobs = int(os.environ.get("VERIF_JOBS", str(min(16, os.cpu_count() or 1))))
+    chunks = _split_cases(cases_path, n, jobs)
+    if len(chunks) == 1:
+        return fn(cases_path, n)
+    try:
+        with concurrent.futures.ThreadPoolExecutor(max_workers=len(chunks)) as ex:
+            parts = list(ex.map(lambda pc: fn(pc[0], pc[1]), chunks))
+    finally:
+        for pth, _ in chunks:
+            try:
+                os.remove(pth)
+            except OSError:
+                pass
+    res = []
+    for part in parts:
+        res.extend(part)
+    return res[:n]
+
+
+def run_impl(cases_path, n, timeout_per_batch=1800):
+    return _parallel(lambda pth, cnt: _run_impl_one(pth, cnt, timeout_per_batch), cases_path, n)
+
+
+def run_model(cases_path, n, timeout=7200):
+    return _parallel(lambda pth, cnt: _run_model_one(pth, cnt, timeout), cases_path, n)
+
+
+def _run_impl_one(cases_path, n, timeout_per_batch=600):
     """Runs the real crate on every case; a process death (stack overflow, abort) is attributed to the
     first unanswered case and the run resumes after it."""
     results = []
@@ -250,7 +306,7 @@ def run_impl(cases_path, n, timeout_per_batch=600):
     return results[:n]
 
 
-def run_model(cases_path, n, timeout=3600):
+def _run_model_one(cases_path, n, timeout=3600):
     exe = os.path.join(LEAN, ".lake/build/bin/hbsmodel")
     with open(cases_path, "rb") as f:
         try:
@@ -298,8 +354,21 @@ def norm_result(r, ignore_pos_for_syntax=True):
     return r
 
 
+def _mask_debug(a, b):
+    """an error argument that is Rust `{:?}` output of an AST node (the name of a tag that is a subexpression) is not
+    reproduced by the model, which prints `<debug>` in its place: compare the rest"""
+    if isinstance(a, dict) and isinstance(b, dict):
+        if isinstance(b.get("args"), list) and isinstance(a.get("args"), list) and len(a["args"]) == len(b["args"]):
+            a = dict(a, args=[("<debug>" if y == "<debug>" else x) for x, y in zip(a["args"], b["args"])])
+        if a.get("r") == "session" and b.get("r") == "session":
+            a = dict(a, results=[_mask_debug(x, y) for x, y in zip(a.get("results", []), b.get("results", []))]
+                     + a.get("results", [])[len(b.get("results", [])):])
+    return a
+
+
 def diff_results(impl, model):
     a, b = norm_result(impl), norm_result(model)
+    a = _mask_debug(a, b)
     if a == b:
         return None
     if a.get("r") == "session" and b.get("r") == "session":
